@@ -311,6 +311,45 @@ Theorem C20_reward_tolerance_is_the_harness_one : forall obs num den, Harness.cl
 Proof. reflexivity. Qed.
 Print Assumptions C20_reward_tolerance_is_the_harness_one.
 
+(* ---- RemoveMiner's second branch, and lookups across the two registries ---- *)
+(* a contract-owned miner that takes its whole stake out is kept as an aborted record with stake 0, the whole stake is
+   scheduled once; a further "refund everything" schedules nothing *)
+Theorem C20_refund_all_contract_kept : forall e h s src id k sl,
+  get_miner s id = Some (k, sl) -> s_acct sl = src -> contract e src = true ->
+  let r := execute e h (TRefund src true (Some MAXU64) id) s in
+  snd r = ROk /\
+  cur (fst r) k id = {| s_info := s_info sl; s_stake := 0%N; s_acct := s_acct sl; s_stat := 1%N |} /\
+  pend (fst r) = (refund_height e k h, src, tok (s_stake sl)) :: pend s.
+Proof. exact refund_all_contract_kept. Qed.
+Print Assumptions C20_refund_all_contract_kept.
+
+Theorem C20_refund_all_again_books_zero : forall e h s src id k sl,
+  get_miner s id = Some (k, sl) -> s_acct sl = src -> contract e src = true -> s_stake sl = 0%N ->
+  pend (fst (execute e h (TRefund src true (Some MAXU64) id) s)) = (refund_height e k h, src, 0) :: pend s.
+Proof. exact refund_all_again_books_zero. Qed.
+Print Assumptions C20_refund_all_again_books_zero.
+
+(* key equality ACROSS the registries is harmless: a write into one registry changes no read of the other, for any
+   keys; the typeless GetMiner falls back to the validator registry when the proposer key holds a non-record cell;
+   the variant that picks the registry by probing that key for any bytes loses the validator *)
+Theorem C20_cross_registry_write : forall H idkey au st w k' i', wkind w <> Some k' ->
+  view_cur H idkey au (k_apply_w H idkey st w) k' i' = view_cur H idkey au st k' i'.
+Proof. exact cross_registry_write. Qed.
+Print Assumptions C20_cross_registry_write.
+
+Theorem C20_typeless_falls_back : forall H idkey au (s : kst) i,
+  rd_info (kcur s 1%N (k0 idkey i)) = None ->
+  get_miner (view H idkey au s) i =
+  match by_id (view H idkey au s) 0%N i with Some x => Some (0%N, x) | None => None end.
+Proof. exact typeless_falls_back. Qed.
+Print Assumptions C20_typeless_falls_back.
+
+Theorem C20_typeless_probe_refuted : forall H idkey au (s : kst) i n sl,
+  kcur s 1%N (k0 idkey i) = Some (CStake n) -> by_id (view H idkey au s) 0%N i = Some sl ->
+  get_miner (view H idkey au s) i = Some (0%N, sl) /\ get_miner_probe H idkey au s i = None.
+Proof. exact typeless_probe_refuted. Qed.
+Print Assumptions C20_typeless_probe_refuted.
+
 (* ---- the hypotheses are satisfiable ---- *)
 Example C20_hypotheses_satisfiable :
   universe [1%N; 2%N] [1%N; 2%N] /\ supply_bound (tok 10000) /\
